@@ -24,9 +24,33 @@ theorem parseStatus_reachL {a st : PState σ} (h0 : ReachL E a st) : ReachL E a 
   unfold parseStatus
   grind [ReachL.adv]
 
+theorem amountLeadSign_reachL {a st : PState σ} (h0 : ReachL E a st) : ReachL E a (amountLeadSign E st).2 := by
+  unfold amountLeadSign
+  grind [ReachL.adv]
+
+theorem amountLeftCommodity_reachL (sg sb) {a st : PState σ} (h0 : ReachL E a st) :
+    ReachL E a (amountLeftCommodity E sg sb st).2 := by
+  unfold amountLeftCommodity
+  grind [ReachL.adv]
+
+theorem amountSecondSign_reachL (sg) {a st : PState σ} (h0 : ReachL E a st) :
+    ReachL E a (amountSecondSign E sg st).2 := by
+  unfold amountSecondSign
+  grind [ReachL.adv]
+
+theorem amountRightCommodity_reachL (c) {a st : PState σ} (h0 : ReachL E a st) :
+    ReachL E a (amountRightCommodity E c st).2 := by
+  unfold amountRightCommodity
+  grind [ReachL.adv]
+
+theorem amountNumber_reachL (p sg c sb) {a st : PState σ} (h0 : ReachL E a st) :
+    ReachL E a (amountNumber E p sg c sb st).2 := by
+  unfold amountNumber
+  grind [ReachL.adv, ReachL.err, amountRightCommodity_reachL]
+
 theorem parseAmount_reachL {a st : PState σ} (h0 : ReachL E a st) : ReachL E a (parseAmount E st).2 := by
   unfold parseAmount
-  grind [ReachL.adv, ReachL.err]
+  grind [amountLeadSign_reachL, amountLeftCommodity_reachL, amountSecondSign_reachL, amountNumber_reachL]
 
 theorem parseCost_reachL {a st : PState σ} (h0 : ReachL E a st)
     (h : st.current.ty = .at ∨ st.current.ty = .atAt) : ReachL E a (parseCost E st).2 := by
@@ -62,6 +86,31 @@ theorem postingTail_reachL {cl} (hc : ClosingOk cl) {a st : PState σ} (h0 : Rea
 
 theorem txDescription_reachL {a st : PState σ} (h0 : ReachL E a st) : ReachL E a (txDescription E st).2 := by
   unfold txDescription
+  grind [ReachL.adv]
+
+theorem txDate2_reachL {a st : PState σ} (h0 : ReachL E a st) : ReachL E a (txDate2 E st).2 := by
+  unfold txDate2
+  grind [ReachL.adv, parseDate_reachL]
+
+theorem txStatus_reachL {a st : PState σ} (h0 : ReachL E a st) : ReachL E a (txStatus E st).2 := by
+  unfold txStatus
+  grind [parseStatus_reachL]
+
+theorem txCode_reachL {a st : PState σ} (h0 : ReachL E a st) : ReachL E a (txCode E st).2 := by
+  unfold txCode
+  grind [ReachL.adv]
+
+theorem txComment_reachL {a st : PState σ} (h0 : ReachL E a st) : ReachL E a (txComment E st).2 := by
+  unfold txComment
+  grind [parseComment_reachL]
+
+theorem accountNameRest_reachL (nm) {a st : PState σ} (h0 : ReachL E a st) :
+    ReachL E a (accountNameRest E nm st).2 := by
+  unfold accountNameRest
+  grind [ReachL.adv]
+
+theorem lineComment_reachL {a st : PState σ} (h0 : ReachL E a st) : ReachL E a (lineComment E st).2 := by
+  unfold lineComment
   grind [ReachL.adv]
 
 theorem commodityInline_reachL {a st : PState σ} (h0 : ReachL E a st) : ReachL E a (commodityInline E st).2 := by
@@ -176,6 +225,19 @@ theorem postingTail_RC {cl} (hc : ClosingOk cl) {a st : PState σ} (h0 : RC E a 
     RC E a 0 (postingTail E cl st).2 := RC.line' E h0 (postingTail_reachL E hc)
 theorem txDescription_RC {a st : PState σ} (h0 : RC E a 0 st) :
     RC E a 0 (txDescription E st).2 := RC.line' E h0 (txDescription_reachL E)
+theorem txDate2_RC {a st : PState σ} (h0 : RC E a 0 st) : RC E a 0 (txDate2 E st).2 := RC.line' E h0 (txDate2_reachL E)
+theorem txStatus_RC {a st : PState σ} (h0 : RC E a 0 st) : RC E a 0 (txStatus E st).2 := RC.line' E h0 (txStatus_reachL E)
+theorem txCode_RC {a st : PState σ} (h0 : RC E a 0 st) : RC E a 0 (txCode E st).2 := RC.line' E h0 (txCode_reachL E)
+theorem txComment_RC {a st : PState σ} (h0 : RC E a 0 st) : RC E a 0 (txComment E st).2 := RC.line' E h0 (txComment_reachL E)
+theorem accountNameRest_RC (nm) {a st : PState σ} (h0 : RC E a 0 st) :
+    RC E a 0 (accountNameRest E nm st).2 := RC.line' E h0 (accountNameRest_reachL E nm)
+theorem lineComment_RC {a st : PState σ} (h0 : RC E a 0 st) : RC E a 0 (lineComment E st).2 := RC.line' E h0 (lineComment_reachL E)
+grind_pattern txDate2_RC => RC E a 0 st, txDate2 E st
+grind_pattern txStatus_RC => RC E a 0 st, txStatus E st
+grind_pattern txCode_RC => RC E a 0 st, txCode E st
+grind_pattern txComment_RC => RC E a 0 st, txComment E st
+grind_pattern accountNameRest_RC => RC E a 0 st, accountNameRest E nm st
+grind_pattern lineComment_RC => RC E a 0 st, lineComment E st
 theorem commodityInline_RC {a st : PState σ} (h0 : RC E a 0 st) :
     RC E a 0 (commodityInline E st).2 := RC.line' E h0 (commodityInline_reachL E)
 grind_pattern commodityInline_RC => RC E a 0 st, commodityInline E st
